@@ -1,5 +1,750 @@
 package rpc
 
-import "verif/core"
+import (
+	"encoding/json"
+	"fmt"
+	"math"
+	"math/rand"
+	"reflect"
+	"sort"
+	"strconv"
+	"strings"
+	"time"
 
-func runC40(c *core.Ctx) error { return nil }
+	"verif/core"
+)
+
+// ---------------------------------------------------------------------------
+// materialisation of the atoms of spec/RpcExtras.tla
+
+const ctxMs = 60000
+
+var longAtoms = map[string]int64{"0": 0, "1": 1, "-1": -1, "max64": math.MaxInt64, "min64": math.MinInt64}
+var strAtoms = map[string]string{"": "", "a": "a", "s300": strings.Repeat("x", 300), "utf8": "héllo wörld ✓ é", "nul": "a\x00b"}
+var dictLongAtoms = map[string]map[string]string{"empty": nil, "d1": {"a": "1"}, "d2": {"": "-1", "k2": "9223372036854775807"}}
+var vecStrAtoms = map[string][]string{"empty": nil, "vs1": {"k"}, "vs2": {"", strings.Repeat("y", 300)}}
+var vecLongAtoms = map[string][]string{"empty": nil, "vl1": {"7"}, "vl2": {"-9223372036854775808", "9223372036854775807"}}
+var doubleAtoms = map[string]uint64{"0": 0, "1.5": math.Float64bits(1.5), "-0.0": 1 << 63, "nan": 0x7ff8000000000123, "inf": math.Float64bits(math.Inf(1))}
+var statsAtoms = map[string]map[string]string{"empty": nil, "st1": {"k": "v"}, "st2": {"": "", "key": strings.Repeat("z", 300)}}
+var pidAtoms = map[string][3]uint32{"pid0": {0, 0, 0}, "pid1": {0xffffffff, 0x12345678, 1}}
+
+type jPQ struct {
+	Kind string    `json:"kind"`
+	Q    [2]string `json:"q"`
+	S    [2]string `json:"s"`
+}
+type jTC struct {
+	Mask   uint32 `json:"mask"`
+	Lo     string `json:"lo"`
+	Hi     string `json:"hi"`
+	Parent string `json:"parent"`
+	Source string `json:"source"`
+}
+
+var pqAtoms = map[string]jPQ{
+	"zero":     {Kind: "prepare", Q: [2]string{"0", "0"}, S: [2]string{"0", "0"}},
+	"prepare1": {Kind: "prepare", Q: [2]string{"-1", "9223372036854775807"}, S: [2]string{"0", "0"}},
+	"commit1":  {Kind: "commit", Q: [2]string{"1", "-9223372036854775808"}, S: [2]string{"77", "-2"}},
+}
+var tcAtoms = map[string]jTC{
+	"zero": {Lo: "0", Hi: "0", Parent: "0"},
+	"tc1":  {Mask: 0, Lo: "1234567890123", Hi: "-5", Parent: "0"},
+	"tc2":  {Mask: 0x8f, Lo: "-1", Hi: "9223372036854775807", Parent: "-9223372036854775808", Source: "src ✓"},
+}
+
+// the driver's wire structs (see harness/drivers/rpc/extras.go); int64 travel as strings
+type jReq struct {
+	Flags             []int             `json:"flags"`
+	RequesterId       string            `json:"requester_id"`
+	WaitShards        map[string]string `json:"wait_shards_binlog_pos"`
+	WaitBinlogPos     string            `json:"wait_binlog_pos"`
+	StringForwardKeys []string          `json:"string_forward_keys"`
+	IntForwardKeys    []string          `json:"int_forward_keys"`
+	StringForward     string            `json:"string_forward"`
+	IntForward        string            `json:"int_forward"`
+	CustomTimeoutMs   int32             `json:"custom_timeout_ms"`
+	Compression       int32             `json:"supported_compression_version"`
+	RandomDelayBits   string            `json:"random_delay_bits"`
+	PQ                jPQ               `json:"persistent_query"`
+	TC                jTC               `json:"trace_context"`
+	ExecutionContext  string            `json:"execution_context"`
+}
+
+type jResp struct {
+	Flags              []int             `json:"flags"`
+	BinlogPos          string            `json:"binlog_pos"`
+	BinlogTime         string            `json:"binlog_time"`
+	EnginePid          [3]uint32         `json:"engine_pid"`
+	RequestSize        int32             `json:"request_size"`
+	ResponseSize       int32             `json:"response_size"`
+	FailedSubqueries   int32             `json:"failed_subqueries"`
+	CompressionVersion int32             `json:"compression_version"`
+	Stats              map[string]string `json:"stats"`
+	ShardsBinlogPos    map[string]string `json:"shards_binlog_pos"`
+	EpochNumber        string            `json:"epoch_number"`
+	ViewNumber         string            `json:"view_number"`
+}
+
+type jCase struct {
+	N       int    `json:"n"`
+	Req     jReq   `json:"req"`
+	Actor   string `json:"actor"`
+	TL2     bool   `json:"tl2"`
+	CtxMs   int    `json:"ctxMs"`
+	NoLocal bool   `json:"noLocal"`
+	Resp    jResp  `json:"resp"`
+	Outcome string `json:"outcome"`
+	Code    int32  `json:"code"`
+	Desc    string `json:"desc"`
+}
+
+type jObs struct {
+	N          int    `json:"n"`
+	CallErr    string `json:"callErr"`
+	ErrText    string `json:"errText"`
+	ErrCode    int32  `json:"errCode"`
+	ErrDesc    string `json:"errDesc"`
+	Seen       bool   `json:"seen"`
+	SrvReq     jReq   `json:"srvReq"`
+	SrvActor   string `json:"srvActor"`
+	SrvTL2     bool   `json:"srvTL2"`
+	SrvTimeout string `json:"srvTimeoutMs"`
+	BodyOK     bool   `json:"bodyOK"`
+	CliResp    jResp  `json:"cliResp"`
+	CliTL2     bool   `json:"cliTL2"`
+	RespBodyOK bool   `json:"respBodyOK"`
+}
+
+// model-side records (JSON of the TLA+ values)
+type mReq struct {
+	Mask []int          `json:"mask"`
+	Val  map[string]any `json:"val"`
+}
+type mOut struct {
+	K    string `json:"k"`
+	Code int    `json:"code"`
+	Desc string `json:"desc"`
+}
+type mCase struct {
+	Req   mReq   `json:"req"`
+	Resp  mReq   `json:"resp"`
+	Out   mOut   `json:"out"`
+	Actor string `json:"actor"`
+	TL2   bool   `json:"tl2"`
+	Ctx   bool   `json:"ctx"`
+}
+type mErr struct {
+	Code int    `json:"code"`
+	Desc string `json:"desc"`
+	Kind string `json:"kind"`
+}
+type mExp struct {
+	Rej      string         `json:"rej"`
+	SrvMask  []int          `json:"srvMask"`
+	SrvVal   map[string]any `json:"srvVal"`
+	SrvTmo   string         `json:"srvTmo"`
+	SrvActor string         `json:"srvActor"`
+	SrvTL2   bool           `json:"srvTL2"`
+	CliMask  []int          `json:"cliMask"`
+	CliVal   map[string]any `json:"cliVal"`
+	CliTL2   bool           `json:"cliTL2"`
+	Err      mErr           `json:"err"`
+	BodyBack bool           `json:"bodyBack"`
+}
+
+func i64s(v int64) string { return strconv.FormatInt(v, 10) }
+
+func atomStr(v any) string { s, _ := v.(string); return s }
+func atomInt(v any) int32  { f, _ := v.(float64); return int32(f) }
+
+func sortedInts(xs []int) []int {
+	r := append([]int{}, xs...)
+	sort.Ints(r)
+	return r
+}
+
+// buildReq materialises a request extra (mask + atoms) as the driver's struct.
+func buildReq(mask []int, val map[string]any) (jReq, error) {
+	r := jReq{Flags: sortedInts(mask)}
+	var ok [13]bool
+	var l int64
+	l, ok[0] = longAtoms[atomStr(val["9"])]
+	r.RequesterId = i64s(l)
+	r.WaitShards, ok[1] = dictLongAtoms[atomStr(val["15"])]
+	l, ok[2] = longAtoms[atomStr(val["16"])]
+	r.WaitBinlogPos = i64s(l)
+	r.StringForwardKeys, ok[3] = vecStrAtoms[atomStr(val["18"])]
+	r.IntForwardKeys, ok[4] = vecLongAtoms[atomStr(val["19"])]
+	r.StringForward, ok[5] = strAtoms[atomStr(val["20"])]
+	l, ok[6] = longAtoms[atomStr(val["21"])]
+	r.IntForward = i64s(l)
+	r.CustomTimeoutMs = atomInt(val["23"])
+	r.Compression = atomInt(val["25"])
+	var d uint64
+	d, ok[7] = doubleAtoms[atomStr(val["26"])]
+	r.RandomDelayBits = strconv.FormatUint(d, 10)
+	r.PQ, ok[8] = pqAtoms[atomStr(val["28"])]
+	r.TC, ok[9] = tcAtoms[atomStr(val["29"])]
+	r.ExecutionContext, ok[10] = strAtoms[atomStr(val["30"])]
+	for i := 0; i <= 10; i++ {
+		if !ok[i] {
+			return r, fmt.Errorf("unknown atom in request extra %v", val)
+		}
+	}
+	return r, nil
+}
+
+func buildResp(mask []int, val map[string]any) (jResp, error) {
+	r := jResp{Flags: sortedInts(mask)}
+	ok := true
+	get := func(k string) int64 {
+		v, o := longAtoms[atomStr(val[k])]
+		ok = ok && o
+		return v
+	}
+	r.BinlogPos, r.BinlogTime = i64s(get("binlog_pos")), i64s(get("binlog_time"))
+	r.EpochNumber, r.ViewNumber = i64s(get("epoch_number")), i64s(get("view_number"))
+	var o bool
+	r.EnginePid, o = pidAtoms[atomStr(val["engine_pid"])]
+	ok = ok && o
+	r.RequestSize, r.ResponseSize = atomInt(val["request_size"]), atomInt(val["response_size"])
+	r.FailedSubqueries, r.CompressionVersion = atomInt(val["failed_subqueries"]), atomInt(val["compression_version"])
+	r.Stats, o = statsAtoms[atomStr(val["stats"])]
+	ok = ok && o
+	r.ShardsBinlogPos, o = dictLongAtoms[atomStr(val["shards_binlog_pos"])]
+	ok = ok && o
+	if !ok {
+		return r, fmt.Errorf("unknown atom in response extra %v", val)
+	}
+	return r, nil
+}
+
+func normReq(r jReq) jReq {
+	if len(r.WaitShards) == 0 {
+		r.WaitShards = nil
+	}
+	if len(r.StringForwardKeys) == 0 {
+		r.StringForwardKeys = nil
+	}
+	if len(r.IntForwardKeys) == 0 {
+		r.IntForwardKeys = nil
+	}
+	if r.Flags == nil {
+		r.Flags = []int{}
+	}
+	return r
+}
+
+func normResp(r jResp) jResp {
+	if len(r.Stats) == 0 {
+		r.Stats = nil
+	}
+	if len(r.ShardsBinlogPos) == 0 {
+		r.ShardsBinlogPos = nil
+	}
+	if r.Flags == nil {
+		r.Flags = []int{}
+	}
+	return r
+}
+
+const (
+	noHandlerDesc  = "RPC handler for #5ca1ab1e not found"
+	deadlinePrefix = "context deadline exceeded (server-adjusted request timeout was "
+)
+
+func materialise(n int, m mCase) (jCase, error) {
+	req, err := buildReq(m.Req.Mask, m.Req.Val)
+	if err != nil {
+		return jCase{}, err
+	}
+	resp, err := buildResp(m.Resp.Mask, m.Resp.Val)
+	if err != nil {
+		return jCase{}, err
+	}
+	a, ok := longAtoms[m.Actor]
+	d, ok2 := strAtoms[m.Out.Desc]
+	if !ok || !ok2 {
+		return jCase{}, fmt.Errorf("unknown actor/description atom %q %q", m.Actor, m.Out.Desc)
+	}
+	c := jCase{N: n, Req: req, Actor: i64s(a), TL2: m.TL2, Resp: resp, Outcome: m.Out.K, Code: int32(m.Out.Code), Desc: d}
+	if m.Ctx {
+		c.CtxMs = ctxMs
+	}
+	return c, nil
+}
+
+func rejClass(o jObs) string {
+	switch {
+	case o.CallErr != "other":
+		return ""
+	case strings.Contains(o.ErrText, "custom timeout should be set"):
+		return "unset_timeout"
+	case strings.Contains(o.ErrText, "should not be negative"):
+		return "negative_timeout"
+	case strings.Contains(o.ErrText, "no_result requests is not supported"):
+		return "no_result"
+	}
+	return "other:" + o.ErrText
+}
+
+// compare returns "" when the observation is the one the specification prescribes.
+func compareExtras(m mCase, e mExp, o jObs) string {
+	if e.Rej != "" {
+		if got := rejClass(o); got != e.Rej {
+			return fmt.Sprintf("client must reject the call (%s), observed %q %s", e.Rej, got, o.ErrText)
+		}
+		if o.Seen {
+			return "rejected call reached the handler"
+		}
+		return ""
+	}
+	if o.CallErr == "other" {
+		return "call failed locally: " + o.ErrText
+	}
+	if !o.Seen {
+		return "the handler never saw the request"
+	}
+	if !o.BodyOK {
+		return "request body damaged"
+	}
+	wantReq, err := buildReq(e.SrvMask, e.SrvVal)
+	if err != nil {
+		return err.Error()
+	}
+	gotReq := normReq(o.SrvReq)
+	wantReq = normReq(wantReq)
+	if e.SrvTmo == "ctx" {
+		if gotReq.CustomTimeoutMs < 1 || gotReq.CustomTimeoutMs > ctxMs || gotReq.CustomTimeoutMs < ctxMs-30000 {
+			return fmt.Sprintf("custom_timeout_ms derived from the context deadline is %d, expected (%d-30000)..%d", gotReq.CustomTimeoutMs, ctxMs, ctxMs)
+		}
+		wantReq.CustomTimeoutMs = gotReq.CustomTimeoutMs
+	}
+	if !reflect.DeepEqual(gotReq, wantReq) {
+		return fmt.Sprintf("request extra seen by the handler differs: want %+v got %+v", wantReq, gotReq)
+	}
+	wantDeadline := e.SrvTmo != "none"
+	if (o.SrvTimeout != "-1") != wantDeadline {
+		return fmt.Sprintf("handler context deadline present=%v, expected %v", o.SrvTimeout != "-1", wantDeadline)
+	}
+	if wantDeadline && o.SrvTimeout != strconv.Itoa(int(gotReq.CustomTimeoutMs)) {
+		return fmt.Sprintf("handler context timeout %s ms differs from custom_timeout_ms %d", o.SrvTimeout, gotReq.CustomTimeoutMs)
+	}
+	if a := longAtoms[e.SrvActor]; o.SrvActor != i64s(a) {
+		return fmt.Sprintf("actor id: want %d got %s", a, o.SrvActor)
+	}
+	if o.SrvTL2 != e.SrvTL2 || o.CliTL2 != e.CliTL2 {
+		return fmt.Sprintf("body format flag: handler TL2=%v client TL2=%v, expected %v", o.SrvTL2, o.CliTL2, e.SrvTL2)
+	}
+	wantResp, err := buildResp(e.CliMask, e.CliVal)
+	if err != nil {
+		return err.Error()
+	}
+	if g, w := normResp(o.CliResp), normResp(wantResp); !reflect.DeepEqual(g, w) {
+		return fmt.Sprintf("response extra seen by the caller differs: want %+v got %+v", w, g)
+	}
+	switch e.Err.Kind {
+	case "none":
+		if o.CallErr != "" {
+			return fmt.Sprintf("unexpected error %d %q", o.ErrCode, o.ErrDesc)
+		}
+		if !o.RespBodyOK {
+			return "response body damaged or belongs to another request"
+		}
+	case "exact":
+		if o.CallErr != "rpc" || int(o.ErrCode) != e.Err.Code || o.ErrDesc != strAtoms[e.Err.Desc] {
+			return fmt.Sprintf("error: want code %d description %q, got %q code %d description %q", e.Err.Code, strAtoms[e.Err.Desc], o.CallErr, o.ErrCode, o.ErrDesc)
+		}
+	case "nohandler":
+		if o.CallErr != "rpc" || int(o.ErrCode) != e.Err.Code || o.ErrDesc != noHandlerDesc {
+			return fmt.Sprintf("no-handler error: got %q %d %q", o.CallErr, o.ErrCode, o.ErrDesc)
+		}
+	case "deadline":
+		if o.CallErr != "rpc" || int(o.ErrCode) != e.Err.Code || !strings.HasPrefix(o.ErrDesc, deadlinePrefix) {
+			return fmt.Sprintf("deadline error: got %q %d %q", o.CallErr, o.ErrCode, o.ErrDesc)
+		}
+	}
+	return ""
+}
+
+func caseKey(m mCase) string {
+	b, _ := json.Marshal(map[string]any{"req": m.Req.Mask, "resp": m.Resp.Mask, "out": m.Out, "actor": m.Actor, "tl2": m.TL2, "ctx": m.Ctx})
+	vals := []string{}
+	for k, v := range m.Req.Val {
+		vals = append(vals, fmt.Sprintf("%s=%v", k, v))
+	}
+	sort.Strings(vals)
+	s := string(b) + strings.Join(vals, ",")
+	if len(s) > 300 {
+		s = s[:300]
+	}
+	return s
+}
+
+// ---------------------------------------------------------------------------
+
+type xItem struct {
+	m mCase
+	e mExp
+	j jCase
+}
+
+func runExtras(c *core.Ctx, drvPath string, env envCfg, items []xItem) ([]jObs, string, error) {
+	d, err := startDriver(drvPath, 10*time.Minute)
+	if err != nil {
+		return nil, "", err
+	}
+	defer d.p.Close()
+	if env.Net == "unix" {
+		env.Dir = sockDir(c)
+	}
+	cases := make([]jCase, len(items))
+	for i := range items {
+		cases[i] = items[i].j
+	}
+	var resp struct {
+		Error string `json:"error"`
+		Panic string `json:"panic"`
+		Obs   []jObs `json:"obs"`
+	}
+	if err := d.p.Call(map[string]any{"op": "extras", "env": env, "cases": cases}, &resp); err != nil {
+		return nil, "", err
+	}
+	if resp.Error != "" || resp.Panic != "" {
+		return nil, "", fmt.Errorf("driver extras: %s%s", resp.Error, resp.Panic)
+	}
+	if len(resp.Obs) != len(items) {
+		return nil, "", fmt.Errorf("driver returned %d observations for %d cases", len(resp.Obs), len(items))
+	}
+	_, race := d.raceReport()
+	return resp.Obs, race, nil
+}
+
+// obsAtoms expresses an observation in the atoms of the specification (for TraceRpcExtras).
+func obsAtoms(o jObs) map[string]any {
+	if rc := rejClass(o); rc != "" {
+		return map[string]any{"rej": rc}
+	}
+	rev := func(tbl any, v any) any {
+		rv := reflect.ValueOf(tbl)
+		keys := rv.MapKeys()
+		sort.Slice(keys, func(i, j int) bool { return keys[i].String() < keys[j].String() })
+		for _, k := range keys {
+			if reflect.DeepEqual(rv.MapIndex(k).Interface(), v) {
+				return k.String()
+			}
+		}
+		return "?"
+	}
+	revLong := func(s string) any {
+		for _, k := range []string{"0", "1", "-1", "max64", "min64"} {
+			if i64s(longAtoms[k]) == s {
+				return k
+			}
+		}
+		return "?"
+	}
+	nz := func(m map[string]string) map[string]string {
+		if len(m) == 0 {
+			return nil
+		}
+		return m
+	}
+	nzs := func(s []string) []string {
+		if len(s) == 0 {
+			return nil
+		}
+		return s
+	}
+	r := o.SrvReq
+	bits, _ := strconv.ParseUint(r.RandomDelayBits, 10, 64)
+	srvVal := map[string]any{
+		"9": revLong(r.RequesterId), "15": rev(dictLongAtoms, nz(r.WaitShards)), "16": revLong(r.WaitBinlogPos),
+		"18": rev(vecStrAtoms, nzs(r.StringForwardKeys)), "19": rev(vecLongAtoms, nzs(r.IntForwardKeys)),
+		"20": rev(strAtoms, r.StringForward), "21": revLong(r.IntForward), "23": r.CustomTimeoutMs, "25": r.Compression,
+		"26": rev(doubleAtoms, bits), "28": rev(pqAtoms, r.PQ), "29": rev(tcAtoms, r.TC), "30": rev(strAtoms, r.ExecutionContext),
+	}
+	y := o.CliResp
+	cliVal := map[string]any{
+		"binlog_pos": revLong(y.BinlogPos), "binlog_time": revLong(y.BinlogTime), "engine_pid": rev(pidAtoms, y.EnginePid),
+		"request_size": y.RequestSize, "response_size": y.ResponseSize, "failed_subqueries": y.FailedSubqueries,
+		"compression_version": y.CompressionVersion, "stats": rev(statsAtoms, nz(y.Stats)),
+		"shards_binlog_pos": rev(dictLongAtoms, nz(y.ShardsBinlogPos)), "epoch_number": revLong(y.EpochNumber), "view_number": revLong(y.ViewNumber),
+	}
+	errRec := map[string]any{"code": 0, "desc": "", "kind": "none"}
+	if o.CallErr == "rpc" {
+		switch {
+		case o.ErrDesc == noHandlerDesc:
+			errRec = map[string]any{"code": o.ErrCode, "desc": "nohandler", "kind": "nohandler"}
+		case strings.HasPrefix(o.ErrDesc, deadlinePrefix):
+			errRec = map[string]any{"code": o.ErrCode, "desc": "deadline", "kind": "deadline"}
+		default:
+			errRec = map[string]any{"code": o.ErrCode, "desc": rev(strAtoms, o.ErrDesc), "kind": "exact"}
+		}
+	}
+	fl := func(x []int) []int {
+		if x == nil {
+			return []int{}
+		}
+		return x
+	}
+	return map[string]any{"rej": "", "srvMask": fl(r.Flags), "srvVal": srvVal, "srvDeadline": o.SrvTimeout != "-1",
+		"srvActor": revLong(o.SrvActor), "srvTL2": o.SrvTL2, "cliMask": fl(y.Flags), "cliVal": cliVal, "cliTL2": o.CliTL2,
+		"err": errRec, "bodyBack": o.CallErr == "" && o.RespBodyOK, "seen": o.Seen}
+}
+
+func runC40(c *core.Ctx) error {
+	var drvPath string
+	var buildErr error
+	buildDone := make(chan struct{})
+	go func() { drvPath, buildErr = buildDriver(c); close(buildDone) }()
+
+	// 1. TLC enumerates the case space and checks the design-level rules
+	var items []xItem
+	var convErr error
+	res, err := c.MustTLC(core.TLCOpts{Module: "RpcExtras", Cfg: "MC_RpcExtras.cfg", Consts: map[string]string{"EDITS": fmt.Sprint(c.Pick(1, 2))},
+		Workers: 4, Timeout: 10 * time.Minute, OnEmit: func(raw json.RawMessage) {
+			var em struct {
+				Tc  mCase `json:"tc"`
+				Exp mExp  `json:"exp"`
+			}
+			if err := json.Unmarshal(raw, &em); err != nil {
+				convErr = err
+				return
+			}
+			j, err := materialise(len(items), em.Tc)
+			if err != nil {
+				convErr = err
+				return
+			}
+			items = append(items, xItem{em.Tc, em.Exp, j})
+		}})
+	if err != nil {
+		return err
+	}
+	if convErr != nil {
+		return fmt.Errorf("case conversion: %v", convErr)
+	}
+	c.Add("states", res.Distinct)
+	c.Add("transitions", res.Generated)
+	c.Logf("TLC RpcExtras: %d distinct cases, %v", res.Distinct, res.Wall)
+	if res.NEmits != res.Distinct || len(items) != res.Distinct {
+		return fmt.Errorf("emitted %d cases for %d distinct states", res.NEmits, res.Distinct)
+	}
+	<-buildDone
+	if buildErr != nil {
+		return buildErr
+	}
+
+	// 2. every case is replayed through a real client -> server -> client round trip
+	envs := []envCfg{{Net: "tcp4", MaxWorkers: 4}, {Net: "unix", Key: cryptoKey, MaxWorkers: 4}}
+	if c.Thorough() {
+		envs = append(envs, envCfg{Net: "tcp4", Key: cryptoKey, MaxWorkers: 0}, envCfg{Net: "unix", MaxWorkers: 1})
+	}
+	byClass := map[string]int{}
+	rejected, accepted := 0, 0
+	var firstObs []jObs
+	for ei, env := range envs {
+		obs, race, err := runExtras(c, drvPath, env, items)
+		if err != nil {
+			return err
+		}
+		if ei == 0 {
+			firstObs = obs
+		}
+		if race != "" {
+			return fmt.Errorf("race detector report during the extras round trips (C38 decides about races):\n%s", race)
+		}
+		for i, it := range items {
+			bad := compareExtras(it.m, it.e, obs[i])
+			byClass[it.m.Out.K+"/tl2="+fmt.Sprint(it.m.TL2)]++
+			if it.e.Rej != "" {
+				rejected++
+			} else {
+				accepted++
+			}
+			if bad != "" {
+				// reproduce in a fresh process
+				obs2, _, err := runExtras(c, drvPath, env, []xItem{it})
+				if err != nil {
+					return err
+				}
+				if bad2 := compareExtras(it.m, it.e, obs2[0]); bad2 == "" {
+					return fmt.Errorf("mismatch not reproduced in a fresh process (inconclusive): %s", bad)
+				}
+				c.Violate(mismatchKey(bad, it.m), fmt.Sprintf("%s (%s): %s", caseKey(it.m), env.name(), bad),
+					map[string]any{"env": env, "case": it.j, "model_case": it.m, "expected": it.e, "observed": obs[i]})
+			}
+			c.Add("evaluations", 1)
+			if c.NViolations() > 20 {
+				break
+			}
+		}
+		if c.NViolations() > 20 {
+			break
+		}
+	}
+	c.Set("cases_by_outcome_and_format", byClass)
+	c.Set("impl_rejected", rejected)
+	c.Set("impl_accepted", accepted)
+	c.Set("distinct_nontrivial", res.Distinct)
+	if rejected == 0 || accepted == 0 {
+		return fmt.Errorf("vacuous: accepted=%d rejected=%d", accepted, rejected)
+	}
+	for i := 0; i < len(items) && i < 3000; i += 499 {
+		c.Sample(map[string]any{"case": items[i].j, "expected": items[i].e, "observed": firstObs[i]})
+	}
+
+	// 3. code -> spec: random cases (any number of fields set), observations validated by TLC
+	rnd := rand.New(rand.NewSource(c.Seed))
+	nRand := c.Pick(400, 4000)
+	rItems := make([]xItem, 0, nRand)
+	for i := 0; i < nRand; i++ {
+		m := randomCase(rnd)
+		j, err := materialise(i, m)
+		if err != nil {
+			return err
+		}
+		rItems = append(rItems, xItem{m: m, j: j})
+	}
+	robs, _, err := runExtras(c, drvPath, envs[int(c.Seed)%len(envs)], rItems)
+	if err != nil {
+		return err
+	}
+	var lines []event
+	for i, it := range rItems {
+		lines = append(lines, event{"tc": it.m, "obs": obsAtoms(robs[i])})
+	}
+	trace := toNDJSON(lines)
+	r, err := c.TLC(core.TLCOpts{Module: "TraceRpcExtras", Cfg: "TraceRpcExtras.cfg", Files: map[string][]byte{"trace.ndjson": trace}, Workers: 4, Timeout: 8 * time.Minute})
+	if err != nil {
+		return err
+	}
+	c.Add("states", r.Distinct)
+	if r.OK {
+		if r.Distinct != len(lines) {
+			return fmt.Errorf("trace validation covered %d of %d round trips", r.Distinct, len(lines))
+		}
+		c.Add("traces_validated_against_impl", 1)
+		c.Add("trace_events_validated", len(lines))
+	} else if r.ErrorKind == "invariant" {
+		m := reTraceI.FindStringSubmatch(r.ErrorText)
+		if m == nil {
+			return fmt.Errorf("TraceRpcExtras rejected a round trip but the index was not found:\n%s", r.ErrorText)
+		}
+		idx, _ := strconv.Atoi(m[1])
+		it := rItems[idx-1]
+		obs2, _, err := runExtras(c, drvPath, envs[int(c.Seed)%len(envs)], []xItem{it})
+		if err != nil {
+			return err
+		}
+		if reflect.DeepEqual(obsAtoms(obs2[0]), obsAtoms(robs[idx-1])) {
+			c.Violate("trace/"+caseKey(it.m), "recorded round trip is not a behaviour of RpcExtras: "+string(toNDJSON(lines[idx-1:idx])),
+				map[string]any{"case": it.j, "model_case": it.m, "observed": robs[idx-1]})
+		} else {
+			return fmt.Errorf("rejected round trip not reproduced (inconclusive)")
+		}
+	} else {
+		return fmt.Errorf("TraceRpcExtras failed: %s\n%s", r.ErrorKind, r.ErrorText)
+	}
+
+	// 4. binding self-test: a corrupted observation must be rejected by both bindings
+	for i, it := range items {
+		if it.e.Rej == "" && len(it.e.CliMask) > 0 && it.m.Out.K == "ok" {
+			o := firstObs[i]
+			o.CliResp.Flags = o.CliResp.Flags[1:]
+			if compareExtras(it.m, it.e, o) == "" {
+				return fmt.Errorf("binding self-test failed: dropped response flag not noticed")
+			}
+			o = firstObs[i]
+			o.SrvReq.ExecutionContext += "x"
+			if compareExtras(it.m, it.e, o) == "" {
+				return fmt.Errorf("binding self-test failed: changed execution_context not noticed")
+			}
+			c.Set("selftest_vector_replay_rejects_corruption", true)
+			break
+		}
+	}
+	if len(lines) > 0 {
+		bad := make([]event, len(lines))
+		copy(bad, lines)
+		for i := range bad {
+			ob := bad[i]["obs"].(map[string]any)
+			if ob["rej"] == "" {
+				nb := map[string]any{}
+				for k, v := range ob {
+					nb[k] = v
+				}
+				nb["srvActor"] = "?"
+				bad[i] = event{"tc": bad[i]["tc"], "obs": nb}
+				break
+			}
+		}
+		r, err := c.TLC(core.TLCOpts{Module: "TraceRpcExtras", Cfg: "TraceRpcExtras.cfg", Files: map[string][]byte{"trace.ndjson": toNDJSON(bad)}, Workers: 4, Timeout: 8 * time.Minute})
+		if err != nil {
+			return err
+		}
+		if r.OK || r.ErrorKind != "invariant" {
+			return fmt.Errorf("binding self-test failed: corrupted trace was not rejected (kind=%s)", r.ErrorKind)
+		}
+		c.Set("selftest_corrupted_trace_rejected", true)
+	}
+	c.Set("rule", "TLC enumerates presence subsets x boundary values of rpcInvokeReqExtra / rpcReqResultExtra, actor id, error code/description, context deadline and both body formats (RpcExtras: every case within MaxEdits edits of 16 base cases) and checks the rules ReqUnchanged, TimeoutNeverLater, RespFiltered, ErrorKept, FormatIndependent; every case is replayed through a real rpc.Client -> rpc.Server -> rpc.Client round trip and compared with Expect; random cases are validated by TLC against TraceRpcExtras")
+	c.Assume("a custom_timeout_ms derived from a 60 s context deadline is accepted in the range 30000..60000 ms (it depends on the time of the call)")
+	c.Assume("field contents are boundary atoms (0, +-1, min/max int64, empty/1-byte/300-byte/UTF-8/NUL strings, empty/1/2-element vectors and dictionaries, -0.0/NaN/Inf doubles, both union constructors)")
+	return nil
+}
+
+func mismatchKey(bad string, m mCase) string {
+	w := strings.Fields(bad)
+	if len(w) > 4 {
+		w = w[:4]
+	}
+	return fmt.Sprintf("extras/%s/tl2=%v/%s", strings.Join(w, "_"), m.TL2, m.Out.K)
+}
+
+func randomCase(rnd *rand.Rand) mCase {
+	pick := func(xs ...any) any { return xs[rnd.Intn(len(xs))] }
+	reqBits := []int{0, 1, 2, 3, 4, 5, 6, 7, 8, 9, 14, 15, 16, 17, 18, 19, 20, 21, 23, 25, 26, 27, 28, 29, 30}
+	respBits := []int{0, 1, 2, 3, 4, 5, 6, 9, 14, 27}
+	sub := func(bits []int, p float64) []int {
+		r := []int{}
+		for _, b := range bits {
+			if b == 7 && rnd.Intn(10) != 0 {
+				continue
+			}
+			if rnd.Float64() < p {
+				r = append(r, b)
+			}
+		}
+		return r
+	}
+	la := []any{"0", "1", "-1", "max64", "min64"}
+	sa := []any{"", "a", "s300", "utf8", "nul"}
+	p := []float64{0.1, 0.5, 0.9}[rnd.Intn(3)]
+	m := mCase{}
+	m.Req.Mask = sub(reqBits, p)
+	m.Req.Val = map[string]any{"9": pick(la...), "15": pick("empty", "d1", "d2"), "16": pick(la...), "18": pick("empty", "vs1", "vs2"),
+		"19": pick("empty", "vl1", "vl2"), "20": pick(sa...), "21": pick(la...), "23": pick(0.0, 0.0, 1.0, 5000.0, 2147483647.0, -5.0),
+		"25": pick(0.0, 1.0, -1.0, 2147483647.0, -2147483648.0), "26": pick("0", "1.5", "-0.0", "nan", "inf"),
+		"28": pick("zero", "prepare1", "commit1"), "29": pick("zero", "tc1", "tc2"), "30": pick(sa...)}
+	m.Resp.Mask = sub(respBits, p)
+	ia := []any{0.0, 7.0, -1.0, 2147483647.0}
+	m.Resp.Val = map[string]any{"binlog_pos": pick(la...), "binlog_time": pick(la...), "engine_pid": pick("pid0", "pid1"),
+		"request_size": pick(ia...), "response_size": pick(ia...), "failed_subqueries": pick(ia...), "compression_version": pick(ia...),
+		"stats": pick("empty", "st1", "st2"), "shards_binlog_pos": pick("empty", "d1", "d2"), "epoch_number": pick(la...), "view_number": pick(la...)}
+	switch rnd.Intn(5) {
+	case 0:
+		m.Out = mOut{K: "rpcerr", Code: []int{0, -1, 1, -5000, -4000, -3000, 2147483647, -2147483648}[rnd.Intn(8)], Desc: pick(sa...).(string)}
+	case 1:
+		m.Out = mOut{K: "err", Desc: pick(sa...).(string)}
+	case 2:
+		m.Out = mOut{K: []string{"nohandler", "deadline"}[rnd.Intn(2)]}
+	default:
+		m.Out = mOut{K: "ok"}
+	}
+	m.Actor = pick(la...).(string)
+	m.TL2 = rnd.Intn(2) == 0
+	m.Ctx = rnd.Intn(3) == 0
+	return m
+}
